@@ -1,6 +1,34 @@
-From LD Require Import Base F32 Data Model Ops Bucket Eval EvalFacts.
-(* first obligation; the full statements of DESIGN.md section 6 are added as they are proved *)
-Theorem C08_invalid_ctx_untouched : forall re_ok re_match o E P f,
-  run re_ok re_match o E P CInvalid f = Done (mkoutcome (err_detail KUserNotSpecified) false []).
-Proof. exact run_invalid. Qed.
-Print Assumptions C08_invalid_ctx_untouched.
+(* C08 Experiment attribution *)
+From LD Require Import Base F32 Data Model Ops Bucket Eval EvalFacts Pure Order SegSpec.
+
+Theorem C08_in_experiment_iff : forall o c vr key salt v inexp,
+  vr_result o c vr key salt = Done (Ok (v, inexp)) ->
+  inexp = true <->
+  vr_var vr = None /\ is_experiment_rollout (vr_rollout vr) = true /\
+  ctx_by_kind c (ro_ctxkind (vr_rollout vr)) <> None /\
+  exists b fl wv, compute_bucket (o_secondary o) c true (ro_seed (vr_rollout vr)) (ro_ctxkind (vr_rollout vr)) key
+                                 (ro_bucket_by (vr_rollout vr)) salt = Ok (b, fl) /\
+                  chosen_bucket b (ro_vars (vr_rollout vr)) = Some wv /\ wv_untracked wv = false /\ v = wv_var wv.
+Proof. exact vr_result_in_experiment. Qed.
+Print Assumptions C08_in_experiment_iff.
+
+Theorem C08_experiment_buckets_by_key : forall sec x seed kind key attr salt,
+  compute_bucket sec x true seed kind key attr salt = compute_bucket false x true seed kind key ref_undef salt.
+Proof. exact experiment_buckets_by_key. Qed.
+Print Assumptions C08_experiment_buckets_by_key.
+
+Theorem C08_is_experiment_formula : forall f r,
+  is_experiment f r =
+  rs_inexp r || match rs_kind r with
+                | RFallthrough => f_track_ft f
+                | RRule i _ => match znth_opt (f_rules f) i with Some ru => ru_track ru | None => false end
+                | _ => false
+                end.
+Proof. exact is_experiment_formula. Qed.
+Print Assumptions C08_is_experiment_formula.
+
+Theorem C08_false_for_off_target_prereq_error : forall f k,
+  match k with ROff | RTarget | RPrereqFailed _ | RError _ => True | _ => False end ->
+  is_experiment f (plain_reason k) = false.
+Proof. exact is_experiment_other_stages. Qed.
+Print Assumptions C08_false_for_off_target_prereq_error.
